@@ -167,6 +167,17 @@ impl Jet {
         self.apply(Fun::Recip)
     }
     pub fn div(&self, o: &Jet) -> Option<Jet> {
+        let b0 = o.c[0].v.abs();
+        if b0.is_finite() && (b0 > 1e60 || (b0 < 1e-60 && b0 > 0.0)) {
+            // divisor of extreme magnitude: 1/b^2, 1/b^3 ... leave the range of f64 although the
+            // quotient's parts do not. Scale both operands by the same power of two (exact) first.
+            let s = (-b0.log2().floor()).exp2();
+            let sc = |j: &Jet| Jet { alg: j.alg.clone(), c: j.c.iter().map(|a| R { v: a.v * s, e: a.e * s, m: a.m * s, x: a.x }).collect() };
+            let (a2, b2) = (sc(self), sc(o));
+            if a2.c.iter().zip(&self.c).chain(b2.c.iter().zip(&o.c)).all(|(n, old)| n.v.is_finite() && (n.v != 0.0 || old.v == 0.0)) {
+                return Some(a2.mul(&b2.recip()?));
+            }
+        }
         Some(self.mul(&o.recip()?))
     }
     pub fn powf(&self, n: f64, leaf_units: f64) -> Option<Jet> {
